@@ -404,38 +404,90 @@ func runC01(c *Ctx) {
 	if encF == nil || decF == nil {
 		r.Unresolved("mirror/struct-fields", pkgSerix+".encodeStructFields <-> decodeStructFields", "function not found")
 	} else {
-		preds := func(fd *ast.FuncDecl) []string {
-			var out []string
-			ast.Inspect(fd.Body, func(n ast.Node) bool {
-				if is, ok := n.(*ast.IfStmt); ok {
-					k := exprKey(is.Cond)
-					if strings.Contains(k, "sField.") {
-						out = append(out, k)
+		// On both sides: the optional-length marker primitive is used exactly on the edges where
+		// the field is known to be optional, the recursion into an embedded struct exactly where
+		// the field is known to be embedded and not inlined, and both walk api.getStructFields.
+		info := p.Pkg(pkgSerix).TypesInfo
+		side := func(fd *ast.FuncDecl, marker, recurse string) (problems []string) {
+			f := newFuncCFG(p, info, fd.Body, funcKey(pkgSerix, fd))
+			atomEdges := func(suffix string, pol bool) []Edge {
+				var out []Edge
+				f.forEachEdgeFact(func(e Edge, b *cfg.Block, ft fact) {
+					if ft.Pol == pol && strings.HasSuffix(exprKey(ft.Atom), suffix) {
+						out = append(out, e)
 					}
-				}
-				return true
+				})
+				return out
+			}
+			optional := atomEdges(".settings.isOptional", true)
+			notOptional := atomEdges(".settings.isOptional", false)
+			embedded := atomEdges(".isEmbedded", true)
+			notInlined := atomEdges(".settings.inlined", false)
+			markers := f.Find(func(n ast.Node) bool {
+				cl, ok := n.(*ast.CallExpr)
+				return ok && strings.HasSuffix(exprKey(cl.Fun), "."+marker)
 			})
-			return out
-		}
-		pe, pd := preds(encF), preds(decF)
-		filter := func(ps []string) []string {
-			var out []string
-			for _, x := range ps {
-				if x == "(sField.isEmbedded&&!sField.settings.inlined)" || x == "sField.settings.isOptional" {
-					out = append(out, x)
+			recs := f.Find(func(n ast.Node) bool {
+				cl, ok := n.(*ast.CallExpr)
+				return ok && strings.HasSuffix(exprKey(cl.Fun), "."+recurse)
+			})
+			if len(markers) == 0 || len(optional) == 0 {
+				problems = append(problems, fmt.Sprintf("%s: no %s under an isOptional test", fd.Name.Name, marker))
+			}
+			for _, m := range markers {
+				if _, only := f.OnlyThroughEdges(m, optional); !only {
+					problems = append(problems, fmt.Sprintf("%s: %s at %s is reachable for a field that is not optional", fd.Name.Name, marker, f.PosOf(m)))
 				}
 			}
-			return out
+			// an optional field never reaches the payload bytes without the marker
+			payload := f.Find(func(n ast.Node) bool {
+				cl, ok := n.(*ast.CallExpr)
+				if !ok {
+					return false
+				}
+				k := exprKey(cl.Fun)
+				return strings.HasSuffix(k, ".WriteBytes") || strings.HasSuffix(k, ".Skip")
+			})
+			isMarker := func(n ast.Node) bool {
+				cl, ok := n.(*ast.CallExpr)
+				return ok && strings.HasSuffix(exprKey(cl.Fun), "."+marker)
+			}
+			for _, e := range optional {
+				for _, pl := range payload {
+					if w, found := f.reach(Point{e.From.Succs[e.Succ], 0}, &searchOpts{AvoidNode: isMarker, AvoidEdge: func(x Edge) bool {
+						for _, ne := range notOptional {
+							if ne == x {
+								return true
+							}
+						}
+						return false
+					}}, func(pt Point, atExit bool) bool { return !atExit && f.At(pt, pl) }); found {
+						problems = append(problems, fmt.Sprintf("%s: the bytes of an optional field are handled without %s: %s", fd.Name.Name, marker, strings.Join(w, " -> ")))
+					}
+				}
+			}
+			if len(recs) == 0 {
+				problems = append(problems, fd.Name.Name+": no recursion into embedded structs")
+			}
+			for _, rc := range recs {
+				if _, only := f.OnlyThroughEdges(rc, embedded); !only {
+					problems = append(problems, fmt.Sprintf("%s: recursion at %s is not limited to embedded fields", fd.Name.Name, f.PosOf(rc)))
+				}
+				if _, only := f.OnlyThroughEdges(rc, notInlined); !only {
+					problems = append(problems, fmt.Sprintf("%s: recursion at %s is not limited to embedded fields that are not inlined", fd.Name.Name, f.PosOf(rc)))
+				}
+			}
+			src, _ := srcOf(p, pkgSerix, "API", fd.Name.Name)
+			if !strings.Contains(src, "api.getStructFields(valueType)") {
+				problems = append(problems, fd.Name.Name+": does not walk api.getStructFields(valueType)")
+			}
+			return
 		}
-		fe, fdp := filter(pe), filter(pd)
-		se, _ := srcOf(p, pkgSerix, "API", "encodeStructFields")
-		sd, _ := srcOf(p, pkgSerix, "API", "decodeStructFields")
-		okMarker := strings.Contains(se, "s.WritePayloadLength(") && strings.Contains(sd, "deseri.ReadPayloadLength()")
-		okOrder := strings.Contains(se, "api.getStructFields(valueType)") && strings.Contains(sd, "api.getStructFields(valueType)")
-		if strings.Join(fe, "|") == strings.Join(fdp, "|") && len(fe) == 2 && okMarker && okOrder {
-			r.Pass("mirror/struct-fields", pkgSerix+".encodeStructFields <-> decodeStructFields", p.posStr(encF.Pos()), "same field source and order, same predicates (embedded-not-inlined, optional), optional marker written/read with Write/ReadPayloadLength")
+		problems := append(side(encF, "WritePayloadLength", "encodeStructFields"), side(decF, "ReadPayloadLength", "decodeStructFields")...)
+		if len(problems) == 0 {
+			r.Pass("mirror/struct-fields", pkgSerix+".encodeStructFields <-> decodeStructFields", p.posStr(encF.Pos()), "both sides: optional marker exactly on isOptional edges and before the payload, recursion exactly on embedded-and-not-inlined edges, shared field list")
 		} else {
-			r.Fail("mirror/struct-fields", pkgSerix+".encodeStructFields <-> decodeStructFields", p.posStr(encF.Pos()), fmt.Sprintf("struct field loops disagree: encoder predicates %v, decoder predicates %v, optional marker pair %v, shared field list %v", fe, fdp, okMarker, okOrder))
+			r.Fail("mirror/struct-fields", pkgSerix+".encodeStructFields <-> decodeStructFields", p.posStr(encF.Pos()), "struct field loops disagree: "+problems[0], problems...)
 		}
 	}
 	// (2) tables
